@@ -90,6 +90,7 @@ THEOREMS = [
     'CpProofs.C19.digestChallenge_wellformed_md5',
     'CpProofs.C19.digestChallenge_wellformed_full_false',
     'CpProofs.C19.basicChallenge_wellformed',
+    'CpProofs.C19.basicChallenge_wellformed_full_false',
     'CpProofs.C19.processHeader_plain',
     'CpProofs.C19.digestRequest_undecodable',
     'CpProofs.C19.digestRequest_grant_iff',
@@ -159,6 +160,8 @@ ASSUMPTIONS = [
     'former as a configuration error, digest_auth pastes both unescaped: only soundness is demanded of such '
     'configurations, the model comparison pins the rest)',
     'the entity body needed for qop=auth-int is not available to the tool (finding F21)',
+    'realms needing quoted-pair escaping (backslash; double quote for Digest) yield a challenge that does not read back '
+    'as the configured realm (finding F26, known; both full well-formedness statements are refuted with witnesses)',
     'the header uri field is not compared with the request target by the code; the statement is read as "the uri the '
     'header names" (RFC 2617 3.2.2.5 leaves the comparison to the server)',
 ]
@@ -166,7 +169,8 @@ RULE = ('per generated configuration (tool x realm x accept_charset x store kind
         'Latin-1 / non-BMP / colon / quote / NFD / empty-password / compatibility twins on which NFC, NFKC, NFD, casefold and '
         'strip differ, stored and sent; 6 % realms with a double quote or backslash): headers produced by the independent '
         'client for every user, qop x algorithm x method x nonce age, then one corruption drawn from a fixed catalogue '
-        '(semantic: computed with wrong inputs, a method= parameter naming the method the digest was computed for; tamper: '
+        '(semantic: computed with wrong inputs, from the literal HA1 "None" for users without a secret, a method= parameter '
+        'naming the method the digest was computed for; tamper: '
         'field changed after signing; syntactic: scheme, quoting, quoted-pair, parameter-name case, base64, white space, '
         'missing / extra / duplicated / empty fields; wire charset; RFC 2047 encoded words around the whole value, the '
         'parameters, the scheme, one field, undecodable, decoding beyond U+00FF, bare "=?"; key-holder nonces with exotic '
@@ -632,6 +636,26 @@ def canon_real(obs):
 # ----------------------------------------------------------------------------------------------
 # oracle
 # ----------------------------------------------------------------------------------------------
+F26 = 'F26:realm-needs-escaping:bad_challenge'
+
+
+def awkward_challenge(scheme, cfg, obs, case):
+    """401 challenge of a configuration whose realm contains `"` or `\\`"""
+    ch, why = cl.check_challenge(scheme, cfg, obs['challenge'])
+    if ch is not None:
+        return []
+    # the expected shape of the defect: exactly the unescaped paste, nothing else wrong
+    c = obs['challenge']
+    text = cl.undo_rfc2047(c[0]) if len(c) == 1 else None
+    if text is not None and text.startswith('%s realm="%s"' % (scheme, cfg['realm'])):
+        rest = text[len('%s realm="%s"' % (scheme, cfg['realm'])):]
+        if cl.parse_challenge(scheme + ' x="y"' + rest) is not None:
+            return [('401 challenge does not read back as the configured realm %r (the realm is pasted between the '
+                     'quotes without escaping): %r' % (cfg['realm'], text), F26)]
+    return [('401 with a malformed challenge (%s): %r' % (why, obs['challenge']), 'bad_challenge:%s:awkward-realm'
+             % scheme.lower())]
+
+
 def oracle(case, obs):
     """Failures of the property statement on this observation: list of (what, signature)."""
     cfg = case['cfg']
@@ -683,8 +707,11 @@ def oracle(case, obs):
                             % (obs['login'], case['header'], kind), 'digest_unsound:' + kind))
             return bad
         if mode == 'sound':
-            # configurations the statement does not clearly cover (a realm with a double quote / backslash):
-            # only "nobody gets in without verifying credentials" is demanded; the model comparison pins the rest
+            # a realm with a double quote / backslash: "nobody gets in without verifying credentials" is demanded in
+            # full; the challenge is pasted together without escaping and does not read back as the configured realm
+            # (finding F26, known) - any *other* defect of the challenge is still reported under its own signature
+            if st == 401:
+                bad += awkward_challenge('Digest', cfg, obs, case)
             return bad
         must_admit = (case['conforming'] and case['wellformed'] is True and prim is not None
                       and prim['digest_ok'] and prim['genuine'] and prim['age'] < cl.LIFETIME)
@@ -730,6 +757,8 @@ def oracle(case, obs):
                         % (obs['login'], case['header'], kind), 'basic_unsound:' + kind))
         return bad
     if mode == 'sound':
+        if st == 401:
+            bad += awkward_challenge('Basic', cfg, obs, case)
         return bad
     if case['conforming'] and case['wellformed'] is True and case.get('expect_login') is not None:
         bad.append(('correct credentials of %r rejected with %d: %r' % (case['expect_login'], st, case['header']),
